@@ -20,6 +20,14 @@
 //   - the spec function of spec_test.go (sentences 2 and 3 of C12), on a cell whose
 //     HTLC table (membership, dust-ness, ids, expiries) is read off the three
 //     commitments.
+//   - family pipe/confirmed-tx (pipesum_test.go): the event and the resolutions the
+//     close-event handler logs for the arbitrator are exactly those of the
+//     transaction that confirmed (outpoints, scripts, values, expiries, level), for
+//     every relation between the peer's current and pending commitment the channel
+//     worlds reach (add, remove, dust<->output through a fee update, re-indexed
+//     outputs, fee only), counted per class and party.
+//
+// The pipe spaces run before the lattice spaces under their own budget.
 package contractcourt
 
 import (
@@ -28,6 +36,7 @@ import (
 	"os"
 	"reflect"
 	"sort"
+	"strings"
 	"sync"
 	"sync/atomic"
 	"time"
@@ -215,13 +224,17 @@ func runPipe(w *chanmc.World, typ string, pc c12PipeCase, info func(string, ...a
 
 	// --- the chain watcher ---
 	st := cell.real.chanState
-	var tx = st.LocalCommitment.CommitTx
+	var (
+		tx        = st.LocalCommitment.CommitTx
+		confirmed = &st.LocalCommitment
+		ownerDust = st.LocalChanCfg.DustLimit
+	)
 	switch pc.Conf {
 	case "remote":
-		tx = st.RemoteCommitment.CommitTx
+		tx, confirmed, ownerDust = st.RemoteCommitment.CommitTx, &st.RemoteCommitment, st.RemoteChanCfg.DustLimit
 	case "pending":
 		tip, _ := st.RemoteCommitChainTip()
-		tx = tip.Commitment.CommitTx
+		tx, confirmed, ownerDust = tip.Commitment.CommitTx, &tip.Commitment, st.RemoteChanCfg.DustLimit
 	}
 	watcher, err := newChainWatcher(chainWatcherConfig{
 		chanState: st,
@@ -288,6 +301,25 @@ func runPipe(w *chanmc.World, typ string, pc c12PipeCase, info func(string, ...a
 			return
 		}
 	}
+	// the event describes the transaction that was spent
+	switch {
+	case local != nil:
+		if local.CloseTx == nil || local.CloseTx.TxHash() != txid {
+			bad("event-for-other-commitment", "our commitment %v confirmed but the local close event carries another close transaction", txid)
+		}
+	default:
+		if remote.SpenderTxHash == nil || *remote.SpenderTxHash != txid {
+			bad("event-for-other-commitment", "the %s commitment %v confirmed but the event's spender hash differs", pc.Conf, txid)
+		}
+		if rc := remote.RemoteCommit; rc.CommitTx == nil || rc.CommitTx.TxHash() != txid || rc.CommitHeight != confirmed.CommitHeight {
+			h := "nil"
+			if rc.CommitTx != nil {
+				h = rc.CommitTx.TxHash().String()
+			}
+			bad("event-for-other-commitment", "the peer's %s commitment %v (height %d) confirmed but the close summary's RemoteCommit is %s (height %d)",
+				pc.Conf, txid, confirmed.CommitHeight, h, rc.CommitHeight)
+		}
+	}
 
 	// --- the arbitrator ---
 	cw.setPhase(1)
@@ -303,6 +335,15 @@ func runPipe(w *chanmc.World, typ string, pc c12PipeCase, info func(string, ...a
 	}
 	cw.mu.Unlock()
 	info("close event handled -> %v err=%v", cw.arb.state, err)
+	// --- the resolutions handed to the arbitrator vs the confirmed transaction ---
+	cw.log.mu.Lock()
+	logged := cw.log.res
+	cw.log.mu.Unlock()
+	if err == nil {
+		nr := judgeResolutions(tx, cell.real.sets[key], logged, pc.Conf == "local",
+			confirmed.LocalBalance.ToSatoshis() >= ownerDust, bad)
+		info("logged resolutions: %d HTLC resolution(s) judged against the %d outputs of %v", nr, len(tx.TxOut), txid)
+	}
 	obs = cw.snapshot()
 	if st := cw.arb.state; st != StateWaitingFullResolution && st != StateFullyResolved {
 		bad("arbitrator-stuck", "after the close event the arbitrator is in %v", st)
@@ -338,12 +379,16 @@ func c12PipeSpaces(run *evid.Run, thorough bool, deadline time.Time, spaceInfo *
 	coarse map[string]int, fine map[string]int, samples interface{ Add(any) }, count func(sig string)) (execs, nontrivial int64) {
 
 	var (
-		ps     c12PipeStats
-		mu     sync.Mutex
-		gated  = map[string]bool{}
-		nSamp  int
-		pres   = []string{"none", "user"}
-		knowns = func(n int) []uint32 { return []uint32{0, 1<<uint(n) - 1} }
+		ps    c12PipeStats
+		mu    sync.Mutex
+		gated = map[string]bool{}
+		nSamp int
+		pres  = []string{"none", "user"}
+		// views: (state, party) pairs per relation between the peer's current and
+		// pending commitment; viewsBy: the same per channel type.
+		views   = map[string]int{}
+		viewsBy = map[string]int{}
+		knowns  = func(n int) []uint32 { return []uint32{0, 1<<uint(n) - 1} }
 	)
 	if thorough {
 		pres = []string{"none", "user", "chain"}
@@ -355,11 +400,35 @@ func c12PipeSpaces(run *evid.Run, thorough bool, deadline time.Time, spaceInfo *
 			return out
 		}
 	}
-	onStateFor := func(params chanmc.Params) func(w *chanmc.World) {
+	// reduced (worlds added for the confirmed-tx family): quick: no go-to-chain step
+	// before the confirmation; thorough: {none, user} and preimage knowledge {none,
+	// all} (the product with block-triggered closes and every knowledge assignment is
+	// the lattice spaces' and the first worlds' business).
+	onStateFor := func(params chanmc.Params, reduced bool) func(w *chanmc.World) {
+		pres, knowns := pres, knowns
+		if reduced {
+			pres = []string{"none"}
+			if thorough {
+				pres = []string{"none", "user"}
+			}
+			knowns = func(n int) []uint32 { return []uint32{0, 1<<uint(n) - 1} }
+		}
 		return func(w *chanmc.World) {
 			ps.states.Add(1)
 			for party := 0; party < 2; party++ {
 				st := w.Chan(party).State()
+				var pend *channeldb.ChannelCommitment
+				if tip, err := st.RemoteCommitChainTip(); err == nil && tip != nil {
+					pend = &tip.Commitment
+				}
+				diff := pendingDiffClasses(&st.RemoteCommitment, pend)
+				mu.Lock()
+				for _, d := range diff {
+					views[d]++
+					viewsBy[fmt.Sprintf("%s|party=%c|%s", params.Type, 'A'+party, d)]++
+					views[fmt.Sprintf("%s@%c", d, 'A'+party)]++
+				}
+				mu.Unlock()
 				n := map[string]bool{}
 				for _, h := range st.LocalCommitment.Htlcs {
 					n[fmt.Sprintf("%v/%d", h.Incoming, h.HtlcIndex)] = true
@@ -394,6 +463,9 @@ func c12PipeSpaces(run *evid.Run, thorough bool, deadline time.Time, spaceInfo *
 							}
 							coarse[fmt.Sprintf("pipe|%s|conf=%s|htlcs=%d|resolvers=%d|fails=%d|finals=%d", params.Type, conf,
 								len(cell.HTLCs), len(obs.Resolvers), len(obs.Msgs), len(obs.Finals))]++
+							for _, d := range diff {
+								coarse[fmt.Sprintf("pipe-pending-diff|%s|conf=%s", d, conf)]++
+							}
 							if nSamp < 2 && len(obs.Resolvers) > 0 && len(obs.Msgs) > 0 {
 								nSamp++
 								samples.Add(map[string]any{"pipe": pc, "params": params, "history": w.Hist(), "observations": obs, "classes": res.Classes})
@@ -447,49 +519,49 @@ func c12PipeSpaces(run *evid.Run, thorough bool, deadline time.Time, spaceInfo *
 		}
 	}
 
-	sat := func(s int64) uint64 { return uint64(s) * 1000 }
-	th := chanmc.Thresholds("tweakless", 6000, 200, 1300)
-	tha := chanmc.Thresholds("anchors", 6000, 200, 1300)
-	// Amounts straddle the dust thresholds so that dust-ness differs between the two
-	// parties' commitments (asymmetric dust limits 200 / 1300 sat).
-	spaces := []chanmc.Space{
-		{P: chanmc.Params{Type: "tweakless", Script: []chanmc.Intent{
-			{By: 0, Amt: sat(th[1] + 50), Fate: "settle"}, {By: 1, Amt: sat(th[2] + 5), Fate: "fail"},
-		}}, Dev: 1},
-		{P: chanmc.Params{Type: "anchors", OpenerB: true, Script: []chanmc.Intent{
-			{By: 0, Amt: sat(tha[0] + 20), Fate: "fail"}, {By: 0, Amt: sat(tha[1] + 500), Fate: "settle"},
-		}}, Dev: 0},
-	}
-	if thorough {
-		spaces = []chanmc.Space{
-			{P: chanmc.Params{Type: "tweakless", Script: []chanmc.Intent{
-				{By: 0, Amt: sat(th[1] + 50), Fate: "settle"}, {By: 1, Amt: sat(th[2] + 5), Fate: "fail"},
-			}}, Dev: -1},
-			{P: chanmc.Params{Type: "tweakless", Fees: []int64{7000}, Script: []chanmc.Intent{
-				{By: 0, Amt: sat(th[0] + 20), Fate: "fail"}, {By: 1, Amt: sat(th[3] + 20), Fate: "settle"},
-			}}, Dev: 2},
-			{P: chanmc.Params{Type: "anchors", OpenerB: true, Script: []chanmc.Intent{
-				{By: 0, Amt: sat(tha[0] + 20), Fate: "fail"}, {By: 0, Amt: sat(tha[1] + 500), Fate: "settle"},
-			}}, Dev: 2},
-			{P: chanmc.Params{Type: "taproot", Script: []chanmc.Intent{
-				{By: 1, Amt: sat(2000), Fate: "settle"}, {By: 0, Amt: sat(3000), Fate: "settle"},
-			}}, Dev: 1},
-			{P: chanmc.Params{Type: "lease", Script: []chanmc.Intent{
-				{By: 0, Amt: sat(3000), Fate: "settle"}, {By: 1, Amt: sat(250), Fate: "fail"},
-			}}, Dev: 1},
-		}
-	}
+	spaces, fullCases := c12PipeWorlds(thorough)
 	for i := range spaces {
-		spaces[i].OnState = onStateFor(spaces[i].P)
+		spaces[i].OnState = onStateFor(spaces[i].P, !fullCases[spaces[i].P.Name()])
 	}
 	t0 := time.Now()
 	sub := evid.Start("C12x", "exploration") // violations of the channel world itself are C01's business
 	agg := chanmc.RunSpaces(sub, spaces, deadline, 0)
+	// The engine's determinism re-check compares the state AND the transition count of
+	// two explorations of one space. Under a deviation bound the set of states is a
+	// fixpoint (every state reachable with <= Dev deviations, whatever the order), but
+	// the number of transitions is not: a state first reached on a path with more
+	// deviations is expanded again when a worker reaches it with fewer. Hidden state
+	// outside the canonical key would show in the state count, so only that is held
+	// against the run; the two counts are kept in the evidence.
+	var caps []string
+	for _, c := range agg.Caps {
+		if strings.HasPrefix(c, "nondeterminism_detected") && agg.Recheck != nil &&
+			fmt.Sprint(agg.Recheck["states_first"]) == fmt.Sprint(agg.Recheck["states_second"]) {
+			continue
+		}
+		caps = append(caps, c)
+	}
+	agg.Caps = caps
 	si := map[string]any{
 		"space":          "pipe (chanmc state -> chainWatcher.handleCommitSpend -> arbitrator close-event handler)",
 		"channel_states": agg.States, "channel_transitions": agg.Transitions, "worlds": len(spaces),
 		"executions": ps.execs.Load(), "skipped": ps.skipped.Load(), "violating_executions": ps.viol.Load(),
 		"complete": len(agg.Caps) == 0, "wall_s": time.Since(t0).Seconds(),
+		"pending_diff_views": views, "pending_diff_views_by_type": viewsBy,
+		"determinism_recheck": agg.Recheck, "per_world": agg.PerSpace,
+	}
+	var vl []string
+	for _, d := range append([]string{"none"}, c12PendingDiffAll...) {
+		vl = append(vl, fmt.Sprintf("%s=%d(A:%d,B:%d)", d, views[d], views[d+"@A"], views[d+"@B"]))
+	}
+	fmt.Printf("INFO pipe/confirmed-tx: (state,party) views by relation of the peer's pending to its current commitment: %s\n", strings.Join(vl, " "))
+	if len(agg.Caps) == 0 {
+		for _, d := range c12PendingDiffAll {
+			if (views[d+"@A"] == 0 || views[d+"@B"] == 0) && d != "same" {
+				fmt.Printf("INFO pipe/confirmed-tx: EMPTY CLASS %q - not reached from both parties' point of view\n", d)
+				*capsHit = append(*capsHit, "pipe spaces: pending-diff class "+d+" not reached from both parties' point of view")
+			}
+		}
 	}
 	*spaceInfo = append(*spaceInfo, si)
 	fmt.Printf("INFO space %-28s channel-states=%d executions=%d complete=%v wall=%.1fs\n", "pipe/chain-watcher",
